@@ -264,6 +264,9 @@ def build(S):
             S.contract("calcPoloidalDistance[two-region chain,periodic=%s,startInd=%d]" % (per, st), FN_PD, chainkit.run_poloidal_distance(per, st), shape="two regions, nx=1")
         S.contract("calcPoloidalDistance[two-region chain,periodic=True,called twice]", FN_PD, chainkit.run_poloidal_distance(True, 0, repeat=2), shape="two regions, nx=1; second call on the same regions")
         S.contract("calcPoloidalDistance[one region, its own y-neighbour]", FN_PD, chainkit.run_poloidal_distance(True, 0, single=True), shape="one periodic region (single-null core), nx=1")
+        from . import C05_cache
+
+        C05_cache.add(S)
         try:
             S.contract("get_distance[guard]", "hypnotoad.core.equilibrium:PsiContour.get_distance", run_get_distance, expected_exceptions=(ValueError,), raises_ok=dist_raise_ok, shape="4 points")
         except Exception as e:  # pragma: no cover
